@@ -19,6 +19,8 @@ import (
 
 	"k8s.io/apimachinery/pkg/api/resource"
 	metav1 "k8s.io/apimachinery/pkg/apis/meta/v1"
+
+	"sigs.k8s.io/karpenter/pkg/cloudprovider"
 )
 
 var (
@@ -27,6 +29,7 @@ var (
 	tMetaTime = reflect.TypeOf(metav1.Time{})
 	tSyncMap  = reflect.TypeOf(sync.Map{})
 	tLocation = reflect.TypeOf(time.Location{})
+	tInstType = reflect.TypeOf(cloudprovider.InstanceType{})
 	skipTypes = map[reflect.Type]bool{
 		reflect.TypeOf(sync.Mutex{}):   true,
 		reflect.TypeOf(sync.RWMutex{}): true,
@@ -184,6 +187,9 @@ func (w *walker) walk(v reflect.Value, path string) {
 			}
 			if w.skip != nil && w.skip(path, f) {
 				continue
+			}
+			if t == tInstType && f.Name == "allocatableOfferings" {
+				continue // lazily computed cache: digested on its own (snapshot.go), "unset -> set" is not a change
 			}
 			w.b.WriteString(f.Name + ":")
 			w.walk(access(v.Field(i)), path+"."+f.Name)
